@@ -180,5 +180,15 @@ C08_Snapshot ==
      LET e == O.hs[i] IN
      (e.st = "done" /\ e.fresh = 1 /\ e.code = 200 /\ e.r.kind \in {"plain", "block"}) => BodyView(e.b) = BodyView(O.pub.b)
 
+\* a playlist is a consistent view: the target duration covers every listed duration (rounded), also for a
+\* request that arrives while the writer is inside the OnEncodeError callback in the middle of a rotation
+BViewOK(b) == \A i \in 1..Len(b.durs) : 1000 * b.td + 499 >= b.durs[i]
+HasCb == "cb" \in DOMAIN O
+C08_ViewsConsistent ==
+  HasObs =>
+    /\ (PubBody => BViewOK(O.pub.b))
+    /\ (HasCb /\ O.cb.st = "done" /\ O.cb.code = 200) => BViewOK(O.cb.b)
+    /\ \A i \in 1..Len(O.hs) : (O.hs[i].st = "done" /\ O.hs[i].code = 200 /\ O.hs[i].r.kind \in {"plain", "block"}) => BViewOK(O.hs[i].b)
+
 C08_NoPanic == HasObs => \A i \in 1..Len(O.hs) : (O.hs[i].st = "done" => O.hs[i].code # 599) /\ O.werr = 0
 =============================================================================
